@@ -354,6 +354,9 @@ RULE = ("event shapes {Event, typed, nested model, Start/Stop/InputRequired/Huma
 from vmc.tables import _ROUND6 as _R6  # noqa: E402
 
 RULE += _R6["C18"]
+from vmc.tables import _ROUND7 as _R7  # noqa: E402
+
+RULE += _R7["C18"]
 
 
 
